@@ -150,6 +150,50 @@ pub fn check_c16(c: &Concrete, hash_seeds: &[u64]) -> (Vec<Violation>, Outcome, 
             }
         }
     }
+    // several compilations of the same sources at the same time, in one process (what a build tool or a language
+    // server embedding the compiler does). The threads' schedule is the operating system's, not the simulator's:
+    // this clause can only be replayed probabilistically, and says so.
+    if matches!(reference.result, ResultObs::Ok) && c.fnv() % 8 == 0 {
+        let barrier = std::sync::Arc::new(std::sync::Barrier::new(4));
+        let root = crate::exec::root();
+        let mut handles = Vec::new();
+        for _ in 0..4 {
+            let c3 = c.clone();
+            let b = barrier.clone();
+            let root = root.clone();
+            handles.push(std::thread::Builder::new().stack_size(256 << 20).spawn(move || {
+                crate::exec::set_root(&root);
+                b.wait();
+                let mut outs = Vec::new();
+                for _ in 0..3 {
+                    outs.push(execute(&c3).sink_bytes);
+                }
+                outs
+            }));
+        }
+        let mut differs = None;
+        for h in handles {
+            if let Ok(h) = h {
+                if let Ok(outs) = h.join() {
+                    for o in outs {
+                        if o != reference.sink_bytes && differs.is_none() {
+                            differs = Some(o.len());
+                        }
+                    }
+                } else if differs.is_none() {
+                    differs = Some(0);
+                }
+            }
+        }
+        if let Some(n) = differs {
+            vs.push(v(
+                "C16",
+                "concurrency",
+                "parallel-compilations-in-one-process",
+                format!("four threads compiling the same sources at the same time: one of them emitted {} bytes that differ from the {} bytes of a compilation on its own (thread schedule not controlled: replay is probabilistic)", n, reference.sink_bytes.len()),
+            ));
+        }
+    }
     // history: a brand-new thread that never compiled anything, against a brand-new thread that first
     // compiled four fixed programs of other shapes (other module layouts, rejected, std-free)
     let c1 = c.clone();
